@@ -427,6 +427,17 @@ def prologue(ctx, need_go=True):
         info["closed"] = closed
         info["axioms"] = axioms
         info["prop_log"] = plog[-4000:]
+    if ctx.tier == "thorough" and info["prop_ok"]:
+        # independent re-check of the compiled property file and everything it depends on
+        try:
+            rc, out = run(["coqchk", "-silent", "-o", "-Q", COQ, "HK", "HK.Properties." + ctx.prop], cwd=COQ, timeout=3000)
+            m = re.search(r"\* Axioms:(.*?)\n\s*\n", out, flags=re.S)
+            info["coqchk"] = {"rc": rc, "axioms": (m.group(1).strip() if m else out[-400:])}
+            if rc != 0:
+                info["prop_ok"] = False
+                info["prop_log"] = info.get("prop_log", "") + "\ncoqchk failed: " + out[-1500:]
+        except Exception as e:     # coqchk missing or timed out: recorded, not fatal
+            info["coqchk"] = {"rc": -1, "axioms": "not run: %r" % (e,)}
     if need_go:
         hbin, log = go_build_harness(ctx)
         info["hbin"] = hbin
@@ -444,6 +455,7 @@ def proof_coverage(info, prop):
         "print_assumptions_closed": info["closed"],
         "print_assumptions_axioms": info["axioms"],
         "forbidden_keyword_hits": info.get("forbidden", []),
+        "coqchk": info.get("coqchk", "thorough tier only"),
         "trusted_base": list(TRUSTED_BASE),
     }
 
